@@ -16,7 +16,7 @@ import math
 from simkit import bootstrap
 from simkit.choice import rng_for, Log, pick, weighted
 from simkit.sched import SimAbort
-from simkit import simnet, model
+from simkit import simnet, model, simtime
 from simkit.shrink import shrink_list_at, replace_at
 from . import BaseEngine, Violation
 from .ports_conc import make_msg, ident
@@ -178,6 +178,7 @@ class NetSim(BaseEngine):
 
     def _restore(self):
         saved = getattr(self, '_saved', None)
+        simtime.deactivate()
         if saved:
             mports.time, mports.random, msock.socket, msock.select = saved[0:4]
             mports.set_sleep_time(saved[4])
@@ -194,6 +195,7 @@ class NetSim(BaseEngine):
         self._select = simnet.SelectShim(net)
         msock.select = self._select
         mports.set_sleep_time(plan['sleep_time'])
+        simtime.activate(lambda: clock.now, mports.time.sleep)
         return clock, net
 
     def run(self, prop, plan, keep_log=False):
